@@ -21,6 +21,7 @@ import Proofs.ResizePad
 import Proofs.ResizeZoom
 import Proofs.ResizeCoord
 import Proofs.ResizeBlur
+import Proofs.ResizeChain
 import Mathlib.Algebra.Order.Field.Rat
 
 open Model
@@ -284,6 +285,30 @@ theorem auto_padding_iff (data noise : List α) (gm : Impl.GMask α) (cy cx : Na
     · intro h
       exact absurd (hiff.mpr h) hfit
 
+/-- (d0') successive `apply_mask` calls: starting from a fresh unmasked `h×w` dataset `(d0, n0)`,
+    applying masks `m₁, …, m_k, m` one after the other (each of the dataset's shape, odd PSF) succeeds
+    and the final data and noise map are exactly those of a single `apply_mask(m)` on the original
+    dataset — every call reads the retained unmasked dataset (`self.unmasked`, or `self` while its
+    mask is all-False), never the already-masked arrays.  With (d5) the triples of the final mask's
+    unmasked pixels are those of the original dataset. -/
+theorem successive_apply_mask_eq_last (d0 n0 : List α) (h w : Nat) (g : Impl.Geom α)
+    (gms : List (Impl.GMask α)) (gm : Impl.GMask α) (cy cx : Nat) (zero : α)
+    (hg : ∀ m ∈ gms ++ [gm], m.mask.h = h ∧ m.mask.w = w)
+    (hd : d0.length = h * w) (hn : n0.length = h * w) (hh : 1 ≤ h) (hw : 1 ≤ w) :
+    ∃ s, Impl.imagingApplyMasks (Impl.imagingInit d0 n0 h w g) (gms ++ [gm]) (2 * cy + 1) (2 * cx + 1) zero
+        = some s
+      ∧ s.data = (Impl.imagingApplyMask d0 n0 gm (2 * cy + 1) (2 * cx + 1) zero).1
+      ∧ s.noise = (Impl.imagingApplyMask d0 n0 gm (2 * cy + 1) (2 * cx + 1) zero).2 := by
+  obtain ⟨s1, h1, hinv1⟩ := chain_inv d0 n0 h w gms cy cx zero
+    (fun m hm => hg m (List.mem_append_left _ hm)) hd hn hh hw _ (imagingInit_inv d0 n0 h w g)
+  obtain ⟨s2, h2, hd2, hn2, _⟩ := step_spec d0 n0 h w s1 gm cy cx zero hinv1
+    (hg gm (List.mem_append_right _ List.mem_cons_self)).1
+    (hg gm (List.mem_append_right _ List.mem_cons_self)).2 hd hn hh hw
+  refine ⟨s2, ?_, hd2, hn2⟩
+  unfold Impl.imagingApplyMasks at h1 ⊢
+  rw [foldl_bind_append_one, h1]
+  exact h2
+
 section Coordinates
 variable {F : Type} [Field F] [CharZero F]
 
@@ -479,5 +504,19 @@ example :
     ⟨by decide, by decide, by decide +kernel⟩ (by decide) (by decide) (by decide +kernel)
     (by decide +kernel)
   exact ⟨h.2.1, h.2.2⟩
+
+/-- successive masks, concretely: a 3×3 dataset masked to one pixel, then to a disjoint pixel, then
+    to both — the last result equals the single application (3×3 PSF, so the padding fires). -/
+example :
+    let d0 : List Int := [1, 2, 3, 4, 5, 6, 7, 8, 9]
+    let n0 : List Int := [11, 12, 13, 14, 15, 16, 17, 18, 19]
+    let g : Impl.Geom Int := ⟨1, 1, 0, 0⟩
+    let mA : Impl.GMask Int := ⟨⟨3, 3, [true, true, true, true, true, true, false, true, true]⟩, g⟩
+    let mB : Impl.GMask Int := ⟨⟨3, 3, [true, true, true, true, true, true, true, false, true]⟩, g⟩
+    let mC : Impl.GMask Int := ⟨⟨3, 3, [true, true, true, true, true, true, false, false, true]⟩, g⟩
+    (Impl.imagingApplyMasks (Impl.imagingInit d0 n0 3 3 g) [mA, mB, mC] 3 3 0).map
+        (fun s => (Impl.slimFrom s.data.gm.mask s.data.native 0, Impl.slimFrom s.noise.gm.mask s.noise.native 0))
+      = some ([7, 8], [17, 18]) := by
+  decide
 
 end C14
